@@ -1517,5 +1517,563 @@ theorem sweep_state_eq (g : State) (vs : List Nat) (hnd : AMap.NoDup g.ttl)
     rw [h1, h2]
     simp only [foldl_evictId_keep]
 
+/-- Layer B alone: one sweep from `.begin` back to `.begin` in visiting order `vs` folds `visitG` over the entries
+    in that order. -/
+theorem sweeper_run (g : State) (w : WPc) (cl : List CPc) (res : List (List Out)) (vs : List Nat) (n : Nat)
+    (halive : g.sweeperAlive = true) (hv : ValidVisits (shardEntries g) vs)
+    (hn : 4 * (shardEntries g).length + 2 ≤ n) :
+    sweeperRun n ⟨g, w, .begin, cl, res, none, none⟩ vs =
+      .ok ⟨{ (visitOrder (shardEntries g) vs).foldl (visitG g.now (secsOf g.now % g.cfg.shards)) g with
+              sweeperAlive := g.sweeperKeep }, w, .begin, cl, res, none, none⟩ := by
+  obtain ⟨m, rfl⟩ : ∃ m, n = m + 1 := ⟨n - 1, by omega⟩
+  rw [sweeperRun_other _ _ _ (by simp) (by simp)]
+  simp only [sweeperAct, halive, Bool.not_true, Bool.false_eq_true, if_false]
+  exact sweep_entries_run w cl res g.now _ vs (shardEntries g) g .begin m hv (by omega)
+
+/-- **Sweeper (item 2), full permutation statement.** For EVERY visiting order `vs` that visits each entry of the
+    shard (due or not) exactly once, the non-preempted Layer B sweep ends in exactly the shared state of Layer A's
+    `sweepStep` (which processes the entries in list order) — so the outcome of a sweep does not depend on the
+    hash map's iteration order. `hnd`: the expiry index has unique keys (an invariant of reachable states;
+    without it Layer B's `ttl.del` and Layer A's `filter` differ on duplicated keys). -/
+theorem sweeper_refines (b : BState) (vs : List Nat) (fuel : Nat)
+    (hsw : b.sw = .begin) (hwu : b.wuOwner = none) (httl : b.ttlOwner = none)
+    (hnd : AMap.NoDup b.g.ttl) (hv : ValidVisits (shardEntries b.g) vs)
+    (hfuel : 4 * (shardEntries b.g).length + 2 ≤ fuel) :
+    match sweepStep b.g with
+    | .ok (g', _) => sweeperRun fuel b vs = .ok { b with g := g' }
+    | .error _ => ∃ m, sweeperRun fuel b vs = .error m := by
+  obtain ⟨g, w, sw, cl, res, wu, tt⟩ := b
+  simp only at hsw hwu httl hnd hv hfuel
+  subst hsw hwu httl
+  by_cases halive : g.sweeperAlive = true
+  · have hrun := sweeper_run g w cl res vs fuel halive hv hfuel
+    cases hA : sweepStep g with
+    | error m => simp [sweepStep, halive] at hA
+    | ok r =>
+      obtain ⟨g', out⟩ := r
+      simp only []
+      rw [hrun, sweep_state_eq g vs hnd hv g' out hA]
+  · obtain ⟨m, rfl⟩ : ∃ m, fuel = m + 1 := ⟨fuel - 1, by omega⟩
+    simp [sweepStep, halive, sweeperRun, sweeperAct]
+
+/-- Non-vacuity: a shard with two due entries and one that is not due; both visiting orders of the three ids are
+    valid, the index has unique keys, and both orders end in the state of `sweepStep`. -/
+def exS : State :=
+  { exG with now := 5 * nsPerSec, ttl := [((1, 2), 10), ((1, 1), 20), ((1, 3), 9 * nsPerSec), ((2, 7), 5)] }
+
+example :
+    (shardEntries exS = [(2, 10), (1, 20), (3, 9 * nsPerSec)]) ∧
+    (match sweeperRun 14 { g := exS, cl := [] } [3, 1, 2], sweepStep exS with
+      | .ok b', .ok (g', .swept ev) => some (gview b'.g == gview g', b'.sw matches .begin, ev)
+      | _, _ => none) = some (true, true, [(2, 102, 4), (1, 101, 2)]) ∧
+    (match sweeperRun 14 { g := exS, cl := [] } [2, 1, 3], sweepStep exS with
+      | .ok b', .ok (g', _) => some (gview b'.g == gview g', b'.g.ttl)
+      | _, _ => none) = some (true, [((1, 3), 9 * nsPerSec), ((2, 7), 5)]) := by
+  decide
+
+/-! ### what `.parked` means -/
+
+def isParked : Out → Bool
+  | .parked => true
+  | _ => false
+
+/-- a Layer A result that, IF it is `.parked`, comes from a send of client `c` at a full queue -/
+def ParkedOK (c : Nat) (x : State × Out) : Prop :=
+  isParked x.2 = true →
+    ∃ cmd, x.1.pend.get? c = some (.send cmd) ∧ x.1.worker ≠ .dead ∧ x.1.queue.length ≥ x.1.cfg.cmdCap
+
+theorem sendCmd_parkedOK (s : State) (c : Nat) (cmd : Cmd) : ParkedOK c (sendCmd s c cmd) := by
+  unfold sendCmd
+  split
+  · intro h; simp [isParked] at h
+  · split
+    · rename_i hd hf
+      intro _
+      exact ⟨cmd, by simp, hd, hf⟩
+    · intro h; simp [isParked] at h
+
+theorem upTailA_parkedOK (s : State) (c id : Nat) (uw : Option Int) : ParkedOK c (upTailA s c id uw) := by
+  unfold upTailA
+  split
+  · split
+    · intro h; simp [isParked] at h
+    · split
+      · intro h; simp [isParked] at h
+      · exact sendCmd_parkedOK _ _ _
+  · intro h; simp [isParked, spotAck] at h
+
+/-- **`.parked` in Layer A = the Layer B client at `.send cmd` with the queue full**: whenever a covered client call
+    returns `.parked`, Layer A has recorded `pend[c] = .send cmd` (so `afterCall` puts the Layer B client at
+    `.send cmd`), the worker is alive and the queue is full (so that client is indeed not enabled). -/
+theorem parked_is_send (g : State) (c : Nat) (r : Req) (o : Oracle) (g' : State) (out : Out) (o' : Oracle)
+    (h : step g (reqEv c r) o = .ok (g', out, o')) : ParkedOK c (g', out) := by
+  cases r with
+  | putW k v w ttl =>
+    have : (g', out) = (if g.shutting then (g, Out.err) else if w ≤ 0 then (g, .panic .weightNotPositive)
+            else clientPutChecked g c k v w ttl) := by
+      cases ttl <;> simp only [reqEv, step, clientPutW, clientPutWTtl, Except.ok.injEq, Prod.mk.injEq] at h <;>
+        exact Prod.ext h.1.symm h.2.1.symm
+    rw [this]
+    split
+    · intro h; simp [isParked] at h
+    · split
+      · intro h; simp [isParked] at h
+      · unfold clientPutChecked
+        split
+        · intro h; simp [isParked, spotAck] at h
+        · simp only []
+          split <;> exact sendCmd_parkedOK _ _ _
+  | delete k =>
+    simp only [reqEv, step, clientDelete, Except.ok.injEq, Prod.mk.injEq] at h
+    rw [← h.1, ← h.2.1]
+    split
+    · intro h; simp [isParked] at h
+    · exact sendCmd_parkedOK _ _ _
+  | get k =>
+    simp only [reqEv, step, clientGet] at h
+    split at h
+    · simp only [Except.ok.injEq, Prod.mk.injEq] at h; rw [← h.2.1]; intro h; simp [isParked] at h
+    · split at h
+      · simp only [Except.ok.injEq, Prod.mk.injEq] at h; rw [← h.2.1]; intro h; simp [isParked] at h
+      · cases h
+  | weight =>
+    simp only [reqEv, step, Except.ok.injEq, Prod.mk.injEq] at h
+    rw [← h.2.1]; intro h; simp [isParked] at h
+  | upsert k v w ttl rm =>
+    simp only [reqEv, step, Except.ok.injEq, Prod.mk.injEq] at h
+    rw [← h.1, ← h.2.1]
+    clear h
+    show ParkedOK c (clientUpsert g c k v w ttl rm)
+    unfold clientUpsert
+    by_cases hs : g.shutting = true
+    · simp only [if_pos hs]; intro h; simp [isParked] at h
+    · simp only [if_neg hs]
+      cases hk : g.store.get? k with
+      | none =>
+        simp only []
+        cases v with
+        | none => cases w <;> (intro h; simp [isParked] at h)
+        | some val =>
+          cases w with
+          | some x =>
+            simp only []
+            split
+            · intro h; simp [isParked] at h
+            · cases ttl <;> exact sendCmd_parkedOK _ _ _
+          | none =>
+            simp only [Option.map]
+            split
+            · intro h; simp [isParked] at h
+            · cases ttl <;> exact sendCmd_parkedOK _ _ _
+      | some e =>
+        have key : ∀ ne : Option Nat,
+            ParkedOK c (upTailA (upIndexA { g with store := g.store.set k { e with expiry := ne, value := v.getD e.value } }
+                e.id (match w with | some x => some x | none => v.map (fun val => g.cfg.weightOf val ttl.isSome))
+                e.expiry ne).1 c e.id
+              (upIndexA { g with store := g.store.set k { e with expiry := ne, value := v.getD e.value } }
+                e.id (match w with | some x => some x | none => v.map (fun val => g.cfg.weightOf val ttl.isSome))
+                e.expiry ne).2) := fun ne => upTailA_parkedOK _ _ _ _
+        cases rm with
+        | true => exact key none
+        | false =>
+          simp only [Bool.false_eq_true, if_false]
+          cases ttl with
+          | none => exact key e.expiry
+          | some t =>
+            simp only []
+            cases addTime g.now t with
+            | none => intro h; simp [isParked] at h
+            | some x => exact key (some x)
+
+/-! ### non-vacuity for the clients -/
+
+def pcCmd : CPc → Option Cmd
+  | .send c => some c
+  | _ => none
+
+/-- `exG` with a full command queue -/
+def exFull : State :=
+  { exG with queue := [(.delete 1, none), (.delete 2, none), (.delete 3, none), (.delete 4, none)] }
+
+/-- A put at a full queue: Layer A answers `.parked` and records `pend[0] = send (put 5 …)`; the Layer B client stops at
+    `.send (put 5 …)` with the id already taken (`nextId = 6`) and everything else unchanged. -/
+def exBFull : BState := { g := exFull, cl := [.idle], res := [[]] }
+def exB2 : BState := { g := exG, cl := [.idle, .idle], res := [[], []] }
+
+example :
+    (0 < exBFull.cl.length ∧ exBFull.wuOwner = none ∧ exBFull.ttlOwner = none) ∧
+    (match step exFull (.putW 0 200 9 3) {} with
+      | .ok (g', out, _) => some (isParked out, g'.pend.get? 0, g'.nextId)
+      | _ => none) = some (true, some (.send (.put 5 200 3 200 9)), 6) ∧
+    (match clientRun 8 (setClient exBFull 0 (.start (.putW 200 9 3 none))) 0 {} with
+      | .ok (b', _) => some ((b'.cl[0]?).bind pcCmd, b'.g.nextId, b'.g.pend, gview b'.g == gview exFull)
+      | _ => none) = some (some (.put 5 200 3 200 9), 6, [], true) := by
+  decide
+
+/-- An upsert that gives key 101 a TTL (index entry added, weight update sent) and a hit: Layer B alone = Layer A. -/
+example :
+    (match clientRun 8 (setClient exB2 1 (.start (.upsert 101 (some 7) none (some 50) false))) 1 {},
+           step exG (.upsert 1 101 (some 7) none (some 50) false) {} with
+      | .ok (b', _), .ok (g', .ack h _, _) => some (gview b'.g == gview g', b'.g.ttl, h)
+      | _, _ => none) = some (true, [((0, 1), 1050)], 1) ∧
+    (match clientRun 8 (setClient exB2 1 (.start (.upsert 101 (some 7) none (some 50) false))) 1 {},
+           step exG (.upsert 1 101 (some 7) none (some 50) false) {} with
+      | .ok (b', _), .ok (_, .ack _ st, _) => some (st, (b'.g.queue.getLast?).map (·.1), (b'.cl[1]?).bind pcCmd)
+      | _, _ => none) = some (.pending, some (.updateWeight 1 25), none) := by
+  decide
+
+example :
+    (match clientRun 8 (setClient exB2 0 (.start (.get 102))) 0 { pool := [0] }, step exG (.get 102) { pool := [0] } with
+      | .ok (b', o1), .ok (g', .value v, o2) => some (gview b'.g == gview g', b'.g.pool, v, o1.isEmpty && o2.isEmpty)
+      | _, _ => none) = some (true, [[102]], some 2, true) := by
+  decide
+
+/-! ## 5  every Layer A step is a Layer B run -/
+
+/-- executes a list of Layer B actions -/
+def runActs : BState → List Act → Oracle → Except String (BState × Oracle)
+  | b, [], o => .ok (b, o)
+  | b, a :: as, o =>
+    match stepB b a o with
+    | .error m => .error m
+    | .ok (b', o') => runActs b' as o'
+
+theorem runActs_worker : ∀ (n : Nat) (b : BState) (o : Oracle) (b' : BState) (o' : Oracle),
+    workerRun n b o = .ok (b', o') → ∃ k, runActs b (List.replicate k .worker) o = .ok (b', o')
+  | 0, _, _, _, _, h => by simp [workerRun] at h
+  | n + 1, b, o, b', o', h => by
+    simp only [workerRun] at h
+    cases hact : workerAct b o with
+    | error m => simp [hact] at h
+    | ok r =>
+      obtain ⟨b1, o1⟩ := r
+      simp only [hact] at h
+      by_cases hh : b1.w.atHead = true
+      · simp only [hh, if_true, Except.ok.injEq, Prod.mk.injEq] at h
+        refine ⟨1, ?_⟩
+        simp [runActs, stepB, hact, h.1, h.2]
+      · simp only [hh, if_false] at h
+        obtain ⟨k, hk⟩ := runActs_worker n b1 o1 b' o' h
+        refine ⟨k + 1, ?_⟩
+        simp [List.replicate, runActs, stepB, hact, hk]
+
+theorem runActs_client : ∀ (n : Nat) (b : BState) (i : Nat) (o : Oracle) (b' : BState) (o' : Oracle),
+    clientRun n b i o = .ok (b', o') → ∃ k, runActs b (List.replicate k (.client i)) o = .ok (b', o')
+  | 0, _, _, _, _, _, h => by simp [clientRun] at h
+  | n + 1, b, i, o, b', o', h => by
+    have key : (b = b' ∧ o = o') ∨
+        ∃ b1 o1, clientAct b i o = .ok (b1, o1) ∧ clientRun n b1 i o1 = .ok (b', o') := by
+      simp only [clientRun] at h
+      split at h
+      · simp only [Except.ok.injEq, Prod.mk.injEq] at h; exact Or.inl h
+      · split at h
+        · simp only [Except.ok.injEq, Prod.mk.injEq] at h; exact Or.inl h
+        · split at h
+          · cases h
+          · rename_i b1 o1 hact; exact Or.inr ⟨b1, o1, hact, h⟩
+    rcases key with ⟨rfl, rfl⟩ | ⟨b1, o1, hact, hrest⟩
+    · exact ⟨0, rfl⟩
+    · obtain ⟨k, hk⟩ := runActs_client n b1 i o1 b' o' hrest
+      refine ⟨k + 1, ?_⟩
+      simp [List.replicate, runActs, stepB, hact, hk]
+
+theorem runActs_sweeper : ∀ (n : Nat) (b : BState) (vs : List Nat) (o : Oracle) (b' : BState),
+    sweeperRun n b vs = .ok b' → ∃ acts, runActs b acts o = .ok (b', o)
+  | 0, _, _, _, _, h => by simp [sweeperRun] at h
+  | n + 1, b, vs, o, b', h => by
+    have key : (∃ v, sweeperAct b v = .ok b') ∨
+        ∃ v b1 vs1, sweeperAct b v = .ok b1 ∧ sweeperRun n b1 vs1 = .ok b' := by
+      unfold sweeperRun at h
+      split at h
+      · split at h
+        · exact Or.inl ⟨none, h⟩
+        · cases h
+      · split at h
+        · cases h
+        · split at h
+          · cases h
+          · rename_i v vs' _ b1 hact; exact Or.inr ⟨some v, b1, vs', hact, h⟩
+      · split at h
+        · cases h
+        · rename_i b1 hact; exact Or.inr ⟨none, b1, vs, hact, h⟩
+    rcases key with ⟨v, hact⟩ | ⟨v, b1, vs1, hact, hrest⟩
+    · exact ⟨[.sweeper v], by simp [runActs, stepB, hact]⟩
+    · obtain ⟨acts, hk⟩ := runActs_sweeper n b1 vs1 o b' hrest
+      exact ⟨.sweeper v :: acts, by simp [runActs, stepB, hact, hk]⟩
+
+theorem sendCmd_worker (s : State) (c : Nat) (cmd : Cmd) : (sendCmd s c cmd).1.worker = s.worker := by
+  unfold sendCmd; split
+  · rfl
+  · split <;> rfl
+
+theorem upTailA_worker (s : State) (c id : Nat) (uw : Option Int) : (upTailA s c id uw).1.worker = s.worker := by
+  unfold upTailA
+  split
+  · split
+    · rfl
+    · split
+      · rfl
+      · exact sendCmd_worker _ _ _
+  · rfl
+
+theorem upIndexA_worker (s : State) (id : Nat) (uw : Option Int) (old new : Option Nat) :
+    (upIndexA s id uw old new).1.worker = s.worker := by
+  unfold upIndexA
+  simp only []
+  split <;> rfl
+
+theorem poolAdd_worker (s : State) (h : Nat) (o : Oracle) (s2 : State) (o' : Oracle)
+    (hp : poolAdd s h o = .ok (s2, o')) : s2.worker = s.worker := by
+  unfold poolAdd at hp
+  split at hp
+  · cases hp
+  · split at hp
+    · cases hp
+    · simp only [Except.ok.injEq, Prod.mk.injEq] at hp
+      rw [← hp.1]
+      simp only []
+      split
+      · simp only [acceptBuffer]; split <;> rfl
+      · rfl
+
+theorem readKey_worker (s : State) (k : Nat) (o : Oracle) (s1 : State) (v : Option Nat) (o1 : Oracle)
+    (hr : readKey s k o = .ok (s1, v, o1)) : s1.worker = s.worker := by
+  unfold readKey at hr
+  split at hr
+  · split at hr
+    · simp only [] at hr
+      split at hr
+      · rename_i s2 o2 hp
+        simp only [Except.ok.injEq, Prod.mk.injEq] at hr
+        rw [← hr.1]
+        exact (poolAdd_worker _ _ _ _ _ hp).trans rfl
+      · cases hr
+    · simp only [Except.ok.injEq, Prod.mk.injEq] at hr; rw [← hr.1]
+  · simp only [Except.ok.injEq, Prod.mk.injEq] at hr; rw [← hr.1]
+
+/-- client calls do not touch the worker's mode -/
+theorem step_client_worker (g : State) (c : Nat) (r : Req) (o : Oracle) (g' : State) (out : Out) (o' : Oracle)
+    (h : step g (reqEv c r) o = .ok (g', out, o')) : g'.worker = g.worker := by
+  cases r with
+  | putW k v w ttl =>
+    have : g' = (if g.shutting then (g, Out.err) else if w ≤ 0 then (g, .panic .weightNotPositive)
+            else clientPutChecked g c k v w ttl).1 := by
+      cases ttl <;> simp only [reqEv, step, clientPutW, clientPutWTtl, Except.ok.injEq, Prod.mk.injEq] at h <;>
+        exact h.1.symm
+    rw [this]
+    split
+    · rfl
+    · split
+      · rfl
+      · unfold clientPutChecked
+        split
+        · rfl
+        · simp only []
+          split <;> exact sendCmd_worker _ _ _
+  | delete k =>
+    simp only [reqEv, step, clientDelete, Except.ok.injEq, Prod.mk.injEq] at h
+    rw [← h.1]
+    split
+    · rfl
+    · exact sendCmd_worker _ _ _
+  | get k =>
+    simp only [reqEv, step, clientGet] at h
+    split at h
+    · simp only [Except.ok.injEq, Prod.mk.injEq] at h; rw [← h.1]
+    · split at h
+      · rename_i s1 v o1 hr
+        simp only [Except.ok.injEq, Prod.mk.injEq] at h
+        rw [← h.1]
+        exact readKey_worker _ _ _ _ _ _ hr
+      · cases h
+  | weight =>
+    simp only [reqEv, step, Except.ok.injEq, Prod.mk.injEq] at h
+    rw [← h.1]
+  | upsert k v w ttl rm =>
+    simp only [reqEv, step, Except.ok.injEq, Prod.mk.injEq] at h
+    rw [← h.1]
+    clear h
+    unfold clientUpsert
+    by_cases hs : g.shutting = true
+    · simp only [if_pos hs]
+    · simp only [if_neg hs]
+      cases hk : g.store.get? k with
+      | none =>
+        simp only []
+        cases v with
+        | none => cases w <;> rfl
+        | some val =>
+          cases w with
+          | some x =>
+            simp only []
+            split
+            · rfl
+            · cases ttl <;> exact sendCmd_worker _ _ _
+          | none =>
+            simp only [Option.map]
+            split
+            · rfl
+            · cases ttl <;> exact sendCmd_worker _ _ _
+      | some e =>
+        have key : ∀ ne : Option Nat,
+            (upTailA (upIndexA { g with store := g.store.set k { e with expiry := ne, value := v.getD e.value } }
+                e.id (match w with | some x => some x | none => v.map (fun val => g.cfg.weightOf val ttl.isSome))
+                e.expiry ne).1 c e.id
+              (upIndexA { g with store := g.store.set k { e with expiry := ne, value := v.getD e.value } }
+                e.id (match w with | some x => some x | none => v.map (fun val => g.cfg.weightOf val ttl.isSome))
+                e.expiry ne).2).1.worker = g.worker := fun ne =>
+          (upTailA_worker _ _ _ _).trans (upIndexA_worker _ _ _ _ _)
+        cases rm with
+        | true => exact key none
+        | false =>
+          simp only [Bool.false_eq_true, if_false]
+          cases ttl with
+          | none => exact key e.expiry
+          | some t =>
+            simp only []
+            cases addTime g.now t with
+            | none => rfl
+            | some x => exact key (some x)
+
+theorem evictId_worker (g : State) (id : Nat) : (evictId g id).worker = g.worker := by
+  rw [evictId_eq]; split <;> rfl
+
+theorem foldl_evictId_worker (l : List Nat) : ∀ (g : State), (l.foldl evictId g).worker = g.worker := by
+  induction l with
+  | nil => intro g; rfl
+  | cons a r ih => intro g; rw [List.foldl_cons, ih, evictId_worker]
+
+theorem sweepStep_worker (g g' : State) (out : Out) (h : sweepStep g = .ok (g', out)) : g'.worker = g.worker := by
+  unfold sweepStep at h
+  split at h
+  · cases h
+  · simp only [Except.ok.injEq, Prod.mk.injEq] at h
+    rw [← h.1]
+    show (sweepEntries g _ []).1.worker = g.worker
+    rw [sweepEntries_eq, foldl_evictId_worker]
+
+theorem consumerStep_worker (g g' : State) (o o' : Oracle) (out : Out) (h : consumerStep g o = .ok (g', out, o')) :
+    g'.worker = g.worker := by
+  unfold consumerStep at h
+  split at h
+  · cases h
+  · split at h
+    · cases h
+    · simp only [Except.ok.injEq, Prod.mk.injEq] at h; rw [← h.1]
+    · split at h
+      · cases h
+      · split at h <;> (simp only [Except.ok.injEq, Prod.mk.injEq] at h; rw [← h.1])
+
+/-- Layer B is at rest: every thread stands between two Layer A events and no lock is owned.
+    The worker's pc is the one that belongs to the mode the shared state records. -/
+def atRest (b : BState) : Prop :=
+  b.w = pcOfMode b.g.worker ∧ b.sw = .begin ∧ (∀ pc ∈ b.cl, pc = .idle) ∧ b.wuOwner = none ∧ b.ttlOwner = none
+
+/-- the Layer A events covered (`put`/`putTtl` compute a weight and call these; `multiGet`, `stats`, `shutdown`,
+    `resume`, `poll` are not programs of Layer B) -/
+inductive Covered : Ev → Prop
+  | putW (c k v w) : Covered (.putW c k v w)
+  | putWTtl (c k v w t) : Covered (.putWTtl c k v w t)
+  | delete (c k) : Covered (.delete c k)
+  | get (k) : Covered (.get k)
+  | weight : Covered .weight
+  | upsert (c k v w t rm) : Covered (.upsert c k v w t rm)
+  | worker : Covered .worker
+  | sweep : Covered .sweep
+  | consumer : Covered .consumer
+  | advance (d) : Covered (.advance d)
+
+/-- the client thread an event belongs to (`get` and `weight` carry none in Layer A: thread 0 runs them) -/
+def evClient : Ev → Nat
+  | .putW c _ _ _ | .putWTtl c _ _ _ _ | .delete c _ | .upsert c _ _ _ _ _ => c
+  | _ => 0
+
+theorem afterCall_atRest (b : BState) (i : Nat) (g' : State) (out : Out) (hb : atRest b)
+    (hw : g'.worker = b.g.worker) (hnp : isParked out = false) :
+    atRest (afterCall b i g' out) ∧ (afterCall b i g' out).g = g' := by
+  obtain ⟨h1, h2, h3, h4, h5⟩ := hb
+  have hcl : ∀ pc ∈ b.cl.set i .idle, pc = .idle := by
+    intro pc hpc
+    rcases List.mem_or_eq_of_mem_set hpc with h | h
+    · exact h3 pc h
+    · exact h
+  cases out <;> first
+    | (simp [isParked] at hnp; done)
+    | exact ⟨⟨by simp only [afterCall, hw, h1], h2, hcl, h4, h5⟩, rfl⟩
+
+theorem client_event_run (b : BState) (i : Nat) (r : Req) (o : Oracle) (g' : State) (out : Out) (o' : Oracle)
+    (hb : atRest b) (hi : i < b.cl.length) (h : step b.g (reqEv i r) o = .ok (g', out, o'))
+    (hnp : isParked out = false) :
+    ∃ acts b', runActs b acts o = .ok (b', o') ∧ atRest b' ∧ b'.g = g' := by
+  have C := client_refines b i r o 8 hi hb.2.2.2.1 hb.2.2.2.2 (Nat.le_refl _)
+  rw [h] at C
+  simp only [CAgree] at C
+  obtain ⟨k, hk⟩ := runActs_client _ _ _ _ _ _ C
+  have hidle : b.cl[i]? = some .idle := by
+    rw [List.getElem?_eq_getElem hi]
+    exact congrArg some (hb.2.2.1 _ (List.getElem_mem hi))
+  have hR := afterCall_atRest b i g' out hb (step_client_worker _ _ _ _ _ _ _ h) hnp
+  refine ⟨.issue i r :: List.replicate k (.client i), _, ?_, hR.1, hR.2⟩
+  simp [runActs, stepB, issue, hidle, hk]
+
+/-- **Item 4.** Every covered Layer A event, taken from a Layer B state at rest, is the execution of a list of
+    Layer B actions that ends at rest with the same shared state.
+    Side conditions (each one necessary):
+    * `hcl`  the calling client thread exists (`get`/`weight`: thread 0);
+    * `hnp`  the call does not block at a full queue — then Layer A writes a `pend` entry that Layer B does not keep and
+             the Layer B client stands at `.send cmd`, not at rest: that case is `client_refines`/`afterCall`;
+    * `hns`  the worker event does not process `Shutdown` — there the layers differ in `g.worker` (`worker_shutdown`);
+    * `hnd`  for a sweep, the expiry index has unique keys. -/
+theorem layerA_step_is_layerB_run (b : BState) (ev : Ev) (o : Oracle) (g' : State) (out : Out) (o' : Oracle)
+    (hcov : Covered ev) (hb : atRest b) (h : step b.g ev o = .ok (g', out, o'))
+    (hcl : evClient ev < b.cl.length) (hnp : isParked out = false)
+    (hns : ev = .worker → b.g.worker = .running → ∀ h q, b.g.queue ≠ (.shutdown, h) :: q)
+    (hnd : ev = .sweep → AMap.NoDup b.g.ttl) :
+    ∃ acts b', runActs b acts o = .ok (b', o') ∧ atRest b' ∧ b'.g = g' := by
+  cases hcov with
+  | putW c k v w => exact client_event_run b c (.putW k v w none) o g' out o' hb hcl h hnp
+  | putWTtl c k v w t => exact client_event_run b c (.putW k v w (some t)) o g' out o' hb hcl h hnp
+  | delete c k => exact client_event_run b c (.delete k) o g' out o' hb hcl h hnp
+  | get k => exact client_event_run b 0 (.get k) o g' out o' hb hcl h hnp
+  | weight => exact client_event_run b 0 .weight o g' out o' hb hcl h hnp
+  | upsert c k v w t rm => exact client_event_run b c (.upsert k v w t rm) o g' out o' hb hcl h hnp
+  | worker =>
+    obtain ⟨g, w, sw, cl, res, wu, tt⟩ := b
+    obtain ⟨h1, h2, h3, h4, h5⟩ := hb
+    simp only at h1 h2 h3 h4 h5 h hns
+    subst h1 h2 h4 h5
+    have W := worker_refines_core g .begin cl res o (5 * g.adm.kw.length + 12) (Nat.le_refl _) (hns trivial)
+    simp only [step] at h
+    rw [h] at W
+    obtain ⟨k, hk⟩ := runActs_worker _ _ _ _ _ W.1
+    exact ⟨_, _, hk, ⟨rfl, rfl, h3, rfl, rfl⟩, rfl⟩
+  | sweep =>
+    obtain ⟨h1, h2, h3, h4, h5⟩ := hb
+    simp only [step] at h
+    cases hS : sweepStep b.g with
+    | error m => simp [hS] at h
+    | ok r =>
+      obtain ⟨g1, out1⟩ := r
+      simp only [hS, Except.ok.injEq, Prod.mk.injEq] at h
+      obtain ⟨rfl, rfl, rfl⟩ := h
+      have hnodup := shardEntries_nodup b.g (hnd rfl)
+      have hv : ValidVisits (shardEntries b.g) ((shardEntries b.g).map Prod.fst) := ⟨hnodup, fun _ => Iff.rfl⟩
+      have S := sweeper_refines b _ _ h2 h4 h5 (hnd rfl) hv (Nat.le_refl _)
+      rw [hS] at S
+      obtain ⟨acts, hk⟩ := runActs_sweeper _ _ _ o _ S
+      refine ⟨acts, _, hk, ⟨?_, h2, h3, h4, h5⟩, rfl⟩
+      simp only [sweepStep_worker _ _ _ hS, h1]
+  | consumer =>
+    obtain ⟨h1, h2, h3, h4, h5⟩ := hb
+    simp only [step] at h
+    refine ⟨[.consumer], { b with g := g' }, by simp [runActs, stepB, h], ⟨?_, h2, h3, h4, h5⟩, rfl⟩
+    simp only [consumerStep_worker _ _ _ _ _ h, h1]
+  | advance d =>
+    obtain ⟨h1, h2, h3, h4, h5⟩ := hb
+    simp only [step, Except.ok.injEq, Prod.mk.injEq] at h
+    obtain ⟨rfl, _, rfl⟩ := h
+    exact ⟨[.advance d], { b with g := { b.g with now := b.g.now + d } }, by simp [runActs, stepB],
+      ⟨h1, h2, h3, h4, h5⟩, rfl⟩
+
 end B
 end Cached
